@@ -1982,93 +1982,455 @@ fn gen(a: &Args) {
     }
 }
 
-/// `dump`: what serde actually emits for a sample signature — consumed by translator/c06.py
-fn dump() {
-    let mut r = Rng::new(7);
-    let mut v = rmh(&mut r, 'v');
-    v.abunds = Some(v.mins.iter().map(|_| 3).collect());
-    let mut t = v.clone();
-    t.kind = 't';
-    let mut plain = v.clone();
-    plain.abunds = None;
-    let h = rhll(&mut r);
-    let sg = Sg {
-        class: "sourmash_signature".into(),
-        email: "".into(),
-        hash_function: "0.murmur64".into(),
-        filename: None,
-        name: Some("n".into()),
-        license: "CC0".into(),
-        version: 0.4f64.to_bits(),
-        sketches: vec![Sk::Mh(v), Sk::Mh(t), Sk::Mh(plain), h],
+// ------------------------------------------------------------------------------------------ dump
+//
+// `dump`: the serde layout of the signature format as the BUILT crate behaves — consumed by translator/c06.py,
+// which builds lean/Sourmash/Generated/C06.lean from it.  Every line is an observation of the real code
+// (serde_json through the crate's public types), none is read off the source text:
+//   <sample> <keys…>                    keys serde_json emits for a sample value, in textual order
+//                                       (kmh/btree × abundances Some / Some(empty) / None, hll, signature with
+//                                       every Option set / name None / filename None / every string empty)
+//   top_is_array <bool>
+//   probe <type> <key> <label> ok|err|panic     the sample object with the value of <key> replaced (labels: PROBES)
+//   absent <type> <key> ok|err|panic <readback>  … with <key> removed; readback = hex(JSON the re-serialised
+//                                       loaded value carries under <key>) or `~` when it has no such key
+//   positional <type> <key…> | -        the array (positional) form: which key each position feeds
+//   molload <type> <hex(word)> ok <Variant> | err | panic       `molecule` = word
+//   written_molecule <type> <Variant> <hex(word)>               what is written for each HashFunctions variant
+//   molecule <Variant> <word>           Display of the variant
+//   numzero <type> <a> <b> <c>          num() after loading num = 5 with max_hash = 0 / 1 / u64::MAX
+//   sketch_variant <Variant> <payload type>     in the order the harness lists them (declaration order)
+//   sketch_untagged <Variant> <bool>    Sketch::V(x) is written exactly as x is
+//   sketch_load mh|mh_noabund|hll|all <Variant>|err|panic       which variant an object loads as (`all` carries
+//                                       the keys of a MinHash object and of a HyperLogLog object)
+//   default <key> <value>               a signature object holding only the required keys, observed through
+//                                       the accessors / Debug: hex string, 16-hex-digit f64 bits, `~` = None
+//   required <key> <bool>
+
+type Obj = Vec<(String, String)>; // key -> JSON text of its value
+
+enum Loaded {
+    Ok(Obj),
+    Err,
+    Panic,
+}
+impl Loaded {
+    fn word(&self) -> &'static str {
+        match self {
+            Loaded::Ok(_) => "ok",
+            Loaded::Err => "err",
+            Loaded::Panic => "panic",
+        }
+    }
+}
+
+fn value_obj(v: serde_json::Value) -> Obj {
+    match v {
+        serde_json::Value::Object(m) => m.into_iter().map(|(k, v)| (k, v.to_string())).collect(),
+        _ => vec![],
+    }
+}
+fn obj_text(o: &Obj) -> String {
+    let f: Vec<String> = o.iter().map(|(k, v)| format!("{}:{}", serde_json::to_string(k).unwrap(), v)).collect();
+    format!("{{{}}}", f.join(","))
+}
+/// `o` with the value of `k` replaced (`Some`) or the key removed (`None`)
+fn obj_with(o: &Obj, k: &str, v: Option<&str>) -> Obj {
+    o.iter().filter(|(x, _)| x != k || v.is_some()).map(|(x, y)| (x.clone(), if x == k { v.unwrap().to_string() } else { y.clone() })).collect()
+}
+fn obj_get<'a>(o: &'a Obj, k: &str) -> Option<&'a str> {
+    o.iter().find(|(x, _)| x == k).map(|(_, v)| v.as_str())
+}
+
+macro_rules! loader {
+    ($name:ident, $t:ty) => {
+        fn $name(t: &str) -> Loaded {
+            let t = t.to_string();
+            match std::panic::catch_unwind(move || serde_json::from_str::<$t>(&t).map(|x| value_obj(serde_json::to_value(&x).unwrap()))) {
+                Err(_) => Loaded::Panic,
+                Ok(Err(_)) => Loaded::Err,
+                Ok(Ok(o)) => Loaded::Ok(o),
+            }
+        }
     };
-    let mut noname = sg.clone();
-    noname.name = None;
-    noname.sketches.clear();
-    let keys = |j: &serde_json::Value| -> String { j.as_object().unwrap().keys().cloned().collect::<Vec<_>>().join(" ") };
-    // serde_json::Value is built without `preserve_order`, so read the key order off the text instead
-    fn text_keys(t: &str) -> String {
-        // top-level keys of one JSON object text, in textual order
-        let b: Vec<char> = t.chars().collect();
-        let (mut depth, mut i, mut out, mut expect_key) = (0i32, 0usize, vec![], false);
-        while i < b.len() {
-            match b[i] {
-                '{' | '[' => {
-                    depth += 1;
-                    expect_key = b[i] == '{' && depth == 1;
-                }
-                '}' | ']' => depth -= 1,
-                ',' if depth == 1 => expect_key = true,
-                '"' => {
-                    let mut j = i + 1;
-                    let mut s = String::new();
-                    while b[j] != '"' {
-                        if b[j] == '\\' {
-                            j += 1;
-                        }
-                        s.push(b[j]);
+}
+loader!(load_kmh, KmerMinHash);
+loader!(load_btree, KmerMinHashBTree);
+loader!(load_hll, HyperLogLog);
+/// one signature object, through the public reader (which wants the enclosing array)
+fn load_sig(t: &str) -> Loaded {
+    let t = format!("[{}]", t);
+    match std::panic::catch_unwind(move || Signature::from_reader(t.as_bytes()).map(|v| (v.len(), value_obj(serde_json::to_value(&v[0]).unwrap())))) {
+        Err(_) => Loaded::Panic,
+        Ok(Err(_)) => Loaded::Err,
+        Ok(Ok((1, o))) => Loaded::Ok(o),
+        Ok(Ok(_)) => Loaded::Err,
+    }
+}
+
+/// top-level keys of one JSON object text, in textual order (serde_json::Value is built without
+/// `preserve_order`, so the order is read off the text)
+fn text_keys(t: &str) -> String {
+    let b: Vec<char> = t.chars().collect();
+    let (mut depth, mut i, mut out, mut expect_key) = (0i32, 0usize, vec![], false);
+    while i < b.len() {
+        match b[i] {
+            '{' | '[' => {
+                depth += 1;
+                expect_key = b[i] == '{' && depth == 1;
+            }
+            '}' | ']' => depth -= 1,
+            ',' if depth == 1 => expect_key = true,
+            '"' => {
+                let mut j = i + 1;
+                let mut s = String::new();
+                while b[j] != '"' {
+                    if b[j] == '\\' {
                         j += 1;
                     }
-                    if depth == 1 && expect_key {
-                        out.push(s);
-                        expect_key = false;
-                    }
-                    i = j;
+                    s.push(b[j]);
+                    j += 1;
                 }
-                _ => {}
+                if depth == 1 && expect_key {
+                    out.push(s);
+                    expect_key = false;
+                }
+                i = j;
             }
-            i += 1;
+            _ => {}
         }
-        out.join(" ")
+        i += 1;
     }
-    let _ = keys;
-    let sig = build(&sg);
+    out.join(" ")
+}
+
+/// the boundary values every loadable key is probed with (label, JSON text); `arr_mh` / `arr_hll` are filled in
+const PROBES: &[(&str, &str)] = &[
+    ("0", "0"),
+    ("255", "255"),
+    ("256", "256"),
+    ("65535", "65535"),
+    ("65536", "65536"),
+    ("u32max", "4294967295"),
+    ("2p32", "4294967296"),
+    ("2p53", "9007199254740992"),
+    ("u64max", "18446744073709551615"),
+    ("2p64", "18446744073709551616"),
+    ("neg", "-1"),
+    ("frac", "1.5"),
+    ("str", "\"1\""),
+    ("word", "\"DNA\""),
+    ("null", "null"),
+    ("true", "true"),
+    ("obj", "{}"),
+    ("arr", "[]"),
+    ("arr_0", "[0]"),
+    ("arr_255", "[255]"),
+    ("arr_256", "[256]"),
+    ("arr_u64max", "[18446744073709551615]"),
+    ("arr_2p64", "[18446744073709551616]"),
+    ("arr_neg", "[-1]"),
+    ("arr_frac", "[1.5]"),
+    ("arr_str", "[\"1\"]"),
+    ("arr_null", "[null]"),
+    ("arr_obj", "[{}]"),
+    ("arr_mh", ""),
+    ("arr_hll", ""),
+];
+
+fn distinct_perms(kinds: &mut Vec<(char, usize)>, cur: &mut Vec<char>, n: usize, out: &mut Vec<Vec<char>>) {
+    if cur.len() == n {
+        out.push(cur.clone());
+        return;
+    }
+    for i in 0..kinds.len() {
+        if kinds[i].1 > 0 {
+            kinds[i].1 -= 1;
+            cur.push(kinds[i].0);
+            distinct_perms(kinds, cur, n, out);
+            cur.pop();
+            kinds[i].1 += 1;
+        }
+    }
+}
+
+/// the positional (JSON array) form of a struct: which key does each position feed?  Found by trying every
+/// arrangement of the value kinds of `base` and then changing one position at a time.
+fn positional(base: &Obj, load: fn(&str) -> Loaded) -> Option<Vec<String>> {
+    let kind = |v: &str| match v.chars().next() {
+        Some('"') => 'S',
+        Some('[') => 'L',
+        Some(c) if c.is_ascii_digit() => 'N',
+        _ => 'O',
+    };
+    let val = |k: char, varied: bool| match (k, varied) {
+        ('S', false) => "\"dna\"",
+        ('S', true) => "\"hp\"",
+        ('L', false) => "[7]",
+        ('L', true) => "[8]",
+        ('N', false) => "0",
+        ('N', true) => "1",
+        (_, false) => "null",
+        (_, true) => "true",
+    };
+    let mut kinds: Vec<(char, usize)> = vec![];
+    for (_, v) in base {
+        let k = kind(v);
+        match kinds.iter_mut().find(|x| x.0 == k) {
+            Some(x) => x.1 += 1,
+            None => kinds.push((k, 1)),
+        }
+    }
+    let mut perms = vec![];
+    distinct_perms(&mut kinds, &mut vec![], base.len(), &mut perms);
+    let arr = |p: &[char], varied: Option<usize>| {
+        let f: Vec<&str> = p.iter().enumerate().map(|(i, k)| val(*k, varied == Some(i))).collect();
+        format!("[{}]", f.join(","))
+    };
+    for p in perms {
+        if let Loaded::Ok(rb0) = load(&arr(&p, None)) {
+            let mut names = vec![];
+            for i in 0..p.len() {
+                let rb = match load(&arr(&p, Some(i))) {
+                    Loaded::Ok(o) => o,
+                    _ => return None,
+                };
+                let mut keys: Vec<&String> = rb.iter().map(|x| &x.0).chain(rb0.iter().map(|x| &x.0)).collect();
+                keys.sort();
+                keys.dedup();
+                let changed: Vec<&String> = keys.into_iter().filter(|k| obj_get(&rb, k.as_str()) != obj_get(&rb0, k.as_str())).collect();
+                if changed.len() != 1 {
+                    return None;
+                }
+                names.push(changed[0].clone());
+            }
+            return Some(names);
+        }
+    }
+    None
+}
+
+fn case_variants(w: &str) -> Vec<String> {
+    let alt = |start: bool| -> String {
+        w.chars().enumerate().map(|(i, c)| if (i % 2 == 0) == start { c.to_ascii_uppercase() } else { c.to_ascii_lowercase() }).collect()
+    };
+    let mut cap = w.to_ascii_lowercase();
+    if let Some(f) = cap.get_mut(0..1) {
+        f.make_ascii_uppercase();
+    }
+    vec![w.to_string(), w.to_ascii_lowercase(), w.to_ascii_uppercase(), cap, alt(true), alt(false)]
+}
+
+fn dump() {
+    std::panic::set_hook(Box::new(|_| {}));
+    let v = Mh {
+        kind: 'v',
+        num: 5,
+        ksize: 21,
+        seed: 42,
+        max_hash: 0,
+        mol: Mol::Dna,
+        mins: vec![10, 20, 30],
+        abunds: Some(vec![3, 4, 5]),
+        md5: "m".into(),
+        cached: true,
+        life: None,
+    };
+    let with = |kind: char, mins: Vec<u64>, abunds: Option<Vec<u64>>| {
+        let mut x = v.clone();
+        x.kind = kind;
+        x.mins = mins;
+        x.abunds = abunds;
+        Sk::Mh(x)
+    };
+    let h = Sk::Hll { p: 4, q: 60, ksize: 21, regs: vec![0, 1, 2, 3, 0, 0, 0, 0, 0, 0, 0, 0, 0, 0, 0, 60] };
+    let sg = Sg {
+        class: "c".into(),
+        email: "e".into(),
+        hash_function: "h".into(),
+        filename: Some("f".into()),
+        name: Some("n".into()),
+        license: "l".into(),
+        version: 0.4f64.to_bits(),
+        sketches: vec![],
+    };
+
+    // ---- what is written: key names and order
+    let sketch_json = |s: &Sk| serde_json::to_string(&build_sk(s)).unwrap();
+    let samples: Vec<(&str, Sk)> = vec![
+        ("kmh_abund", with('v', v.mins.clone(), v.abunds.clone())),
+        ("kmh_abund_empty", with('v', vec![], Some(vec![]))),
+        ("kmh", with('v', v.mins.clone(), None)),
+        ("btree_abund", with('t', v.mins.clone(), v.abunds.clone())),
+        ("btree_abund_empty", with('t', vec![], Some(vec![]))),
+        ("btree", with('t', v.mins.clone(), None)),
+        ("hll", h.clone()),
+    ];
+    for (n, s) in &samples {
+        println!("{} {}", n, text_keys(&sketch_json(s)));
+    }
+    let sig_json = |g: &Sg| serde_json::to_string(&build(g)).unwrap();
+    let mut g = sg.clone();
+    println!("signature_full {}", text_keys(&sig_json(&g)));
+    g.name = None;
+    println!("signature_noname {}", text_keys(&sig_json(&g)));
+    g = sg.clone();
+    g.filename = None;
+    println!("signature_nofilename {}", text_keys(&sig_json(&g)));
+    g = Sg { class: "".into(), email: "".into(), hash_function: "".into(), filename: Some("".into()), name: Some("".into()), license: "".into(), version: 0, sketches: vec![] };
+    println!("signature_emptystr {}", text_keys(&sig_json(&g)));
     let mut b = vec![];
-    sig.to_writer(&mut b).unwrap();
+    let mut full = sg.clone();
+    full.sketches = samples.iter().map(|x| x.1.clone()).collect();
+    build(&full).to_writer(&mut b).unwrap();
     let val: serde_json::Value = serde_json::from_slice(&b).unwrap();
-    let one = serde_json::to_string(&sig).unwrap();
-    println!("signature {}", text_keys(&one));
-    println!("signature_noname {}", text_keys(&serde_json::to_string(&build(&noname)).unwrap()));
-    let names = ["kmh_abund", "btree_abund", "kmh", "hll"];
-    for (n, sk) in names.iter().zip(sig.iter()) {
-        println!("{} {}", n, text_keys(&serde_json::to_string(sk).unwrap()));
+    println!("top_is_array {}", val.is_array() && b.first() == Some(&b'['));
+
+    // ---- what is read: every key of the written objects against the boundary values
+    let mh_text = sketch_json(&samples[0].1);
+    let hll_text = sketch_json(&h);
+    let base = |t: &str| value_obj(serde_json::from_str(t).unwrap());
+    let targets: Vec<(&str, Obj, fn(&str) -> Loaded)> = vec![
+        ("kmh", base(&mh_text), load_kmh),
+        ("btree", base(&sketch_json(&samples[3].1)), load_btree),
+        ("hll", base(&hll_text), load_hll),
+        ("signature", base(&sig_json(&sg)), load_sig),
+    ];
+    for (name, obj, load) in &targets {
+        if !matches!(load(&obj_text(obj)), Loaded::Ok(_)) {
+            println!("unloadable {}", name);
+            continue;
+        }
+        for (k, _) in obj {
+            for (label, text) in PROBES {
+                let text = match *label {
+                    "arr_mh" => format!("[{}]", mh_text),
+                    "arr_hll" => format!("[{}]", hll_text),
+                    _ => text.to_string(),
+                };
+                println!("probe {} {} {} {}", name, k, label, load(&obj_text(&obj_with(obj, k, Some(&text)))).word());
+            }
+            let r = load(&obj_text(&obj_with(obj, k, None)));
+            let rb = match &r {
+                Loaded::Ok(o) => obj_get(o, k).map(|v| hex(v.as_bytes())).unwrap_or_else(|| "~".into()),
+                _ => "-".into(),
+            };
+            println!("absent {} {} {} {}", name, k, r.word(), rb);
+        }
     }
-    println!("top_is_array {}", val.is_array());
-    for hf in [HashFunctions::Murmur64Dna, HashFunctions::Murmur64Protein, HashFunctions::Murmur64Dayhoff, HashFunctions::Murmur64Hp] {
+    for (name, obj, load) in &targets[..2] {
+        match positional(obj, *load) {
+            Some(p) => println!("positional {} {}", name, p.join(" ")),
+            None => println!("positional {} -", name),
+        }
+    }
+
+    // ---- molecule strings: written, and what loads as what
+    let hfs = [HashFunctions::Murmur64Dna, HashFunctions::Murmur64Protein, HashFunctions::Murmur64Dayhoff, HashFunctions::Murmur64Hp];
+    let mut words: Vec<String> = vec![];
+    for hf in &hfs {
         println!("molecule {:?} {}", hf, hf);
+        words.extend(case_variants(&hf.to_string()));
+        for kind in ['v', 't'] {
+            let mut m = v.clone();
+            m.kind = kind;
+            m.mol = hf_mol(hf);
+            let o = base(&sketch_json(&Sk::Mh(m)));
+            let w: String = obj_get(&o, "molecule").and_then(|t| serde_json::from_str(t).ok()).unwrap_or_default();
+            println!("written_molecule {} {:?} {}", if kind == 'v' { "kmh" } else { "btree" }, hf, hs(&w));
+            words.extend(case_variants(&w));
+        }
     }
-    // the serde defaults, behaviourally: load an object that carries only the required fields
-    let d = &Signature::from_reader(&b"[{\"hash_function\":\"x\",\"signatures\":[]}]"[..]).unwrap()[0];
-    let od = observe(d);
-    println!("default class {}", hs(&od.class));
-    println!("default license {}", hs(&od.license));
-    println!("default email {}", hs(&od.email));
-    println!("default version {:016x}", od.version);
-    println!("default filename {}", hopt(&od.filename));
-    println!("default name {}", hopt(&od.name));
-    for miss in ["hash_function", "signatures"] {
-        let t = format!("[{{\"{}\":{}}}]", if miss == "signatures" { "hash_function" } else { "signatures" }, if miss == "signatures" { "\"x\"" } else { "[]" });
-        println!("required {} {}", miss, Signature::from_reader(t.as_bytes()).is_err());
+    for w in ["DNA", "dna", "protein", "dayhoff", "hp", "", "rna", "dnax", "xdna", " dna", "dna ", "d", "dn", "h", "p", "murmur64dna", "Murmur64Dna", "0.murmur64", "d.n.a", "\u{ff24}\u{ff2e}\u{ff21}", "dna\u{0}", "\u{212a}"] {
+        words.push(w.to_string());
+    }
+    let mut seen = BTreeSet::new();
+    words.retain(|w| seen.insert(w.clone()));
+    for (name, obj, _) in &targets[..2] {
+        for w in &words {
+            let t = obj_text(&obj_with(obj, "molecule", Some(&serde_json::to_string(w).unwrap())));
+            let kmh = *name == "kmh";
+            let r = std::panic::catch_unwind(move || {
+                if kmh {
+                    serde_json::from_str::<KmerMinHash>(&t).map(|x| format!("{:?}", x.hash_function()))
+                } else {
+                    serde_json::from_str::<KmerMinHashBTree>(&t).map(|x| format!("{:?}", x.hash_function()))
+                }
+            });
+            let out = match r {
+                Err(_) => "panic".to_string(),
+                Ok(Err(_)) => "err".to_string(),
+                Ok(Ok(v)) => format!("ok {}", v),
+            };
+            println!("molload {} {} {}", name, hs(w), out);
+        }
+        // `num` of a scaled sketch
+        let nums: Vec<String> = ["0", "1", "18446744073709551615"]
+            .iter()
+            .map(|mh| {
+                let t = obj_text(&obj_with(&obj_with(obj, "num", Some("5")), "max_hash", Some(mh)));
+                let r = if *name == "kmh" {
+                    serde_json::from_str::<KmerMinHash>(&t).map(|x| x.num()).ok()
+                } else {
+                    serde_json::from_str::<KmerMinHashBTree>(&t).map(|x| x.num()).ok()
+                };
+                r.map(|n| n.to_string()).unwrap_or_else(|| "err".into())
+            })
+            .collect();
+        println!("numzero {} {}", name, nums.join(" "));
+    }
+
+    // ---- the Sketch enum
+    fn short<T>(_: &T) -> &'static str {
+        std::any::type_name::<T>().rsplit("::").next().unwrap()
+    }
+    fn variant(s: &Sketch) -> (&'static str, &'static str, String) {
+        match s {
+            Sketch::MinHash(x) => ("MinHash", short(x), serde_json::to_string(x).unwrap()),
+            Sketch::LargeMinHash(x) => ("LargeMinHash", short(x), serde_json::to_string(x).unwrap()),
+            Sketch::HyperLogLog(x) => ("HyperLogLog", short(x), serde_json::to_string(x).unwrap()),
+        }
+    }
+    for s in [&samples[0].1, &samples[3].1, &h] {
+        let sk = build_sk(s);
+        let (var, payload, inner) = variant(&sk);
+        println!("sketch_variant {} {}", var, payload);
+        println!("sketch_untagged {} {}", var, serde_json::to_string(&sk).unwrap() == inner);
+    }
+    let mut all = base(&mh_text);
+    for (k, v) in base(&hll_text) {
+        if obj_get(&all, &k).is_none() {
+            all.push((k, v));
+        }
+    }
+    for (n, t) in [("mh", mh_text.clone()), ("mh_noabund", sketch_json(&samples[2].1)), ("hll", hll_text.clone()), ("all", obj_text(&all))] {
+        let r = std::panic::catch_unwind(move || serde_json::from_str::<Sketch>(&t).map(|s| variant(&s).0));
+        println!("sketch_load {} {}", n, match r {
+            Err(_) => "panic",
+            Ok(Err(_)) => "err",
+            Ok(Ok(v)) => v,
+        });
+    }
+
+    // ---- the serde defaults of a signature: load an object that carries only the keys that cannot be left out
+    let (_, sobj, _) = &targets[3];
+    let required: Vec<&(String, String)> = sobj.iter().filter(|(k, _)| !matches!(load_sig(&obj_text(&obj_with(sobj, k, None))), Loaded::Ok(_))).collect();
+    let minimal: Obj = required.iter().map(|x| (*x).clone()).collect();
+    match Signature::from_reader(format!("[{}]", obj_text(&minimal)).as_bytes()) {
+        Ok(l) if l.len() == 1 => {
+            let od = observe(&l[0]);
+            println!("default class {}", hs(&od.class));
+            println!("default license {}", hs(&od.license));
+            println!("default email {}", hs(&od.email));
+            println!("default hash_function {}", hs(&od.hash_function));
+            println!("default version {:016x}", od.version);
+            println!("default filename {}", hopt(&od.filename));
+            println!("default name {}", hopt(&od.name));
+        }
+        _ => println!("unloadable signature_minimal"),
+    }
+    for (k, _) in sobj {
+        println!("required {} {}", k, required.iter().any(|x| &x.0 == k));
     }
 }
 
